@@ -40,8 +40,15 @@ for p in props:
             'design_ref': 'DESIGN.md section 13 (as built) and section 4 (plan), ' + pid,
         },
         'level_note': getattr(mod, 'LEVEL_NOTE', '; '.join(getattr(mod, 'TRUSTED', []) + getattr(mod, 'ASSUMPTIONS', []))),
-        'technique': getattr(mod, 'TECHNIQUE', 'machine-checked proof in Coq 8.16 about a hand-written executable model, tied to the '
-                                               'code by a correspondence check (extracted OCaml model vs implementation) and an independent oracle'),
+        'technique': getattr(mod, 'TECHNIQUE', None) or (
+            'machine-checked proof in Coq 8.16.1 (theorems in coq/%s/Props*.v, each with Print Assumptions; coqchk in the thorough tier) about a '
+            'hand-written executable Gallina model of the anchored code; the model is tied to /repo on every run by a correspondence check '
+            '(model extracted to OCaml and run against the implementation on generated inputs, bit-for-bit or exact)%s; when a proof obligation or '
+            'the correspondence breaks, an independent Python oracle written from the property text searches for a concrete failing input. '
+            'What is proved: %s' % (pid, (' and by a fail-closed Python-ast facts translator that regenerates coq/%s/Generated*.v from the source '
+                                          '(proof obligations over the generated facts are re-checked by coqc each run)' % pid)
+                                    if hasattr(mod, 'facts') else '',
+                                    ' '.join(getattr(mod, 'LEVEL_TEXT', '').split())[:700])),
     })
 m = {
     'version': 1,
